@@ -1,15 +1,19 @@
 #!/bin/bash
-# usage: try_seeded.sh Cxx DIR   — apply DIR/patch.diff to /repo, run ./check Cxx, undo; output to DIR/check_output.txt
-# (DIR is e.g. /tmp/mut/C04_out/1 or /verif/seeded/C04/1).  /repo must be clean.
+# usage: try_seeded.sh Cxx DIR [more Cyy...] — apply DIR/patch.diff to a PRIVATE worktree of /repo (/tmp/seedtest/repo,
+# reset to /repo HEAD first), run ./check Cxx in a private clone of /verif (/tmp/seedtest/verif, synced to /verif HEAD),
+# undo; output to DIR/check_output.txt.  /verif and /repo themselves are not touched.
 pid=$1; d=$2; shift 2
-cd /repo || exit 2
-if [ -n "$(git status --porcelain --untracked-files=no)" ]; then echo "/repo not clean"; exit 2; fi
-git apply --check "$d/patch.diff" || { echo "patch does not apply"; exit 3; }
+S=/tmp/seedtest
+git -C $S/repo checkout -- . ; git -C $S/repo checkout -q --detach $(git -C /repo rev-parse HEAD)
+( cd $S/verif && git pull -q --no-edit /verif main >/dev/null 2>&1 )
+cd $S/repo || exit 2
+git apply --check "$d/patch.diff" || { echo "patch does not apply" | tee "$d/check_output.txt"; exit 3; }
 git apply "$d/patch.diff"
-cd /verif
+cd $S/verif
+export OXVERIF_REPO=$S/repo
 for p in $pid "$@"; do
-  echo "== ./check $p with $d/patch.diff applied" 
-  timeout 3000 ./check $p 2>&1 | cut -c1-400 | grep -v "^\[C..\] \(coq\|props\|harness\)" | tail -12
+  echo "== ./check $p with $d/patch.diff applied"
+  timeout 3600 ./check $p 2>&1 | cut -c1-400 | grep -v "^\[C..\] \(coq\|props\|harness\)" | tail -12
 done > "$d/check_output.txt" 2>&1
-git -C /repo checkout -- .
+git -C $S/repo checkout -- .
 tail -6 "$d/check_output.txt"
